@@ -13,6 +13,12 @@ COMMON = ["-generate_fakeroot", "-fakeroot_name=device", "-generate_getters", "-
 CONFIGS = {
     "vmain_u": (["v-main.yang", "v-types.yang", "v-defu.yang"], ["-generate_simple_unions"], {"compress": False, "wrapper_unions": False}),
     "vmain_w": (["v-main.yang", "v-types.yang"], [], {"compress": False, "wrapper_unions": True}),
+    "voc_c": (["v-oc.yang"], ["-generate_simple_unions", "-compress_paths"], {"compress": True, "wrapper_unions": False}),
+    "voc_s": (["v-oc.yang"], ["-generate_simple_unions", "-compress_paths", "-prefer_operational_state"],
+              {"compress": True, "wrapper_unions": False, "prefer_state": True}),
+    "voc_i": (["v-oc.yang"], ["-generate_simple_unions", "-compress_paths", "-ignore_shadow_schema_paths"],
+              {"compress": True, "wrapper_unions": False, "shadow": True}),
+    "voc_u": (["v-oc.yang"], ["-generate_simple_unions"], {"compress": False, "wrapper_unions": False}),
 }
 
 REGISTER = '''//go:build verif
